@@ -8,7 +8,12 @@ bytes and the decode result.  The driver materialises each definition three time
 vp_compile'd copy and (when expressible through type_map) a DataClassPayload - and checks constructor result, bytes
 and decoded attributes of every form against what TLC computed (translation validation, binding E).  Every shipped
 VariablePayload class is additionally re-interpreted (plain copy) and re-compiled (fresh vp_compile) and all three are
-run on generated instances; the recorded pack/unpack/repack events are validated by TLC (WireTrace.tla, binding T)."""
+run on generated instances; the recorded pack/unpack/repack events are validated by TLC (WireTrace.tla, binding T).
+
+A class body holds more than wire fields (PayloadDef.tla: AddConst): constants (bare or typing.ClassVar-annotated),
+helper methods, the message id (bare / ClassVar / in the class header).  TLC places them before, between and after the
+fields, in the base class and (overriding) in the subclass; the definition keeps its meaning (invariant ConstsOffWire)
+and every member must show the value TLC computed (cvals) on the class, on a constructed and on a decoded instance."""
 from __future__ import annotations
 
 import concurrent.futures
@@ -19,6 +24,7 @@ import os
 import random
 import re
 import shutil
+import typing
 
 from ..common import Ctx, setup_repo_path
 from ..tlc import MachineryError, _RE_NODE, _unescape, parse_simulate_file, parse_state, run_tlc, scratch_dir
@@ -28,6 +34,11 @@ from .c02 import World, record, run_trace_controls, settle_trace_controls, valid
 PID = "C20"
 NESTED = "messaging.anonymization.payload.IntroductionInfo"
 NATURAL = {"?": bool, "q": int, "varlenH": bytes, "varlenHutf8": str}
+STATE_KEYS = ("def", "split", "style", "args", "fields", "pbytes", "pdec", "consts", "cvals", "bcvals")
+# non-field members of a class body (PayloadDef.tla: ConstKinds): attribute name, annotation, specification value -> python
+MEMBERS = {"int": ("MAX_ITEMS", int, int), "text": ("LABEL", str, lambda v: "".join(map(chr, v))),
+           "tuple": ("VERSIONS", typing.Tuple[int, ...], lambda v: tuple(int(x) for x in v)),
+           "msgid": ("msg_id", int, int), "method": ("helper", None, int)}
 
 
 def rotl(v):
@@ -51,12 +62,17 @@ class Definition:
 
     counter = 0
 
-    def __init__(self, world, df, sabotage=None, base=None):
+    def __init__(self, world, df, sabotage=None, base=None, consts=()):
         """base: the Definition of the leading fields df[:len(base.df)]; then the classes built here are *subclasses* of
-        the base's classes that add the remaining fields (PayloadDef.tla: Derive)."""
+        the base's classes that add the remaining fields (PayloadDef.tla: Derive).
+        consts: the non-field members (PayloadDef.tla: AddConst) of the whole definition; a derived Definition writes
+        those with sub = TRUE into its own class body, the others belong to the base."""
         from ipv8.messaging.lazy_payload import VariablePayload, vp_compile
         from ipv8.messaging.payload_dataclass import DataClassPayload, type_from_format
         self.world, self.df, self.base = world, df, base
+        self.sabotage = sabotage
+        self.consts = tuple(consts)
+        self.own_consts = [c for c in self.consts if bool(c["sub"]) == (base is not None)]
         self.split = len(base.df) if base is not None else 0
         self.VariablePayload, self.vp_compile = VariablePayload, vp_compile
         self.DataClassPayload, self.type_from_format = DataClassPayload, type_from_format
@@ -113,9 +129,39 @@ class Definition:
             raise LookupError("base class has no %s form" % form)
         return self.base.forms[form]
 
+    @staticmethod
+    def member_value(c):
+        """python value of a member as written in the class body that declares it (PayloadDef.tla: consts[i].v)."""
+        v = MEMBERS[c["ck"]][2](c["v"])
+        return (lambda v: lambda self: v)(v) if c["ck"] == "method" else v
+
+    def _members(self, annotate):
+        """-> (namespace entries, annotations) for the members written in this class body (header ones excluded)."""
+        ns, ann = {}, {}
+        for c in self.own_consts:
+            if c["sty"] == "subscript":
+                continue
+            name, tp, _ = MEMBERS[c["ck"]]
+            ns[name] = self.member_value(c)
+            if annotate and c["sty"] == "classvar":
+                ann[name] = typing.ClassVar[tp]
+        return ns, ann
+
+    def _header_id(self):
+        for c in self.own_consts:
+            if c["sty"] == "subscript":
+                return self.member_value(c)
+        return None
+
     def _namespace(self):
         ns = {"format_list": list(self.format_list), "names": list(self.names)}
         ns.update(self._own_hooks())
+        members, ann = self._members(True)
+        ns.update(members)
+        if ann:
+            ns["__annotations__"] = ann
+        if self._header_id() is not None:        # plain counterpart of Base[id]: a VariablePayloadWID with that msg_id
+            ns["msg_id"] = self._header_id()
         if self.defaults:
             params = ", ".join(n if n not in self.defaults else "%s=_d[%r]" % (n, n) for n in self.names)
             src = "def __init__(self, %s, **kwargs):\n    VariablePayload.__init__(self, %s, **kwargs)\n" % (
@@ -125,11 +171,15 @@ class Definition:
             ns["__init__"] = scope["__init__"]
         return ns
 
+    def _root(self):
+        from ipv8.messaging.lazy_payload import VariablePayloadWID
+        return VariablePayloadWID if self._header_id() is not None else self.VariablePayload
+
     def _plain(self):
-        return type("Plain%d" % self.uid, (self._parent("plain", self.VariablePayload),), self._namespace())
+        return type("Plain%d" % self.uid, (self._parent("plain", self._root()),), self._namespace())
 
     def _compiled(self):
-        return self.vp_compile(type("Compiled%d" % self.uid, (self._parent("compiled", self.VariablePayload),), self._namespace()))
+        return self.vp_compile(type("Compiled%d" % self.uid, (self._parent("compiled", self._root()),), self._namespace()))
 
     def _dataclass(self):
         if any(f["k"] == "bits" for f in self.df):
@@ -137,13 +187,30 @@ class Definition:
         if self.base is not None and "dataclass" not in self.base.forms:
             return None
         fields = []
-        for f, names in list(zip(self.df, self.field_names))[self.split:]:     # a derived dataclass lists its own fields only
+        namespace = self._own_hooks()
+
+        def members_at(pos):                  # annotated members stand in the annotation order where the body has them
+            for c in self.own_consts:
+                if c["pos"] != pos or c["sty"] == "subscript":
+                    continue
+                name, tp, _ = MEMBERS[c["ck"]]
+                if c["sty"] == "classvar" and self.sabotage == "const-field":
+                    fields.append((name, tp, dataclasses.field(default=self.member_value(c))))     # control: a real field
+                elif c["sty"] == "classvar":
+                    fields.append((name, typing.ClassVar[tp], self.member_value(c)))
+                else:
+                    namespace[name] = self.member_value(c)
+        own = list(zip(self.df, self.field_names))[self.split:]                # a derived dataclass lists its own fields only
+        for i, (f, names) in enumerate(own, self.split):
+            members_at(i)
             k, n = f["k"], names[0]
             t = NATURAL.get(k) or (list[int] if k == "arrayH-q" else self.nested if k == "payload" else
                                    list[self.nested] if k == "payload-list" else self.type_from_format(k))
             fields.append((n, t, dataclasses.field(default=self.defaults[n])) if n in self.defaults else (n, t))
-        return dataclasses.make_dataclass("Data%d" % self.uid, fields, bases=(self._parent("dataclass", self.DataClassPayload),),
-                                          namespace=self._own_hooks(), module=__name__)
+        members_at(len(self.df))
+        root = self.DataClassPayload if self._header_id() is None else self.DataClassPayload[self._header_id()]
+        return dataclasses.make_dataclass("Data%d" % self.uid, fields, bases=(self._parent("dataclass", root),),
+                                          namespace=namespace, module=__name__)
 
     # ---- expected values in python / normal form
     def flat(self, values):
@@ -164,6 +231,25 @@ class Definition:
         codec = self.world.codec
         return [codec.to_norm(t, getattr(obj, n), NESTED) if hasattr(obj, n) else ("MISSING",)
                 for n, t in zip(self.names, self.types)]
+
+    def members(self, cls, inst, dec):
+        """what every non-field member shows on the class, on a constructed and on a decoded instance (normal form)."""
+        def norm(ck, owner, obj):
+            if obj is None:
+                return None                   # no such instance: reported (or noted as a codec matter) at its own stage
+            name = MEMBERS[ck][0]
+            try:
+                v = getattr(owner, name)
+                if ck == "method":
+                    v = v(obj) if owner is cls else v()
+            except Exception as e:  # noqa: BLE001
+                return ("MISSING", type(e).__name__)
+            if isinstance(v, bool) or not isinstance(v, (int, str, tuple)):
+                return ("OTHER", repr(v)[:60])
+            return tuple(map(ord, v)) if isinstance(v, str) else canon(v)
+        seen = ((norm(c["ck"], cls, inst if inst is not None else dec), norm(c["ck"], inst, inst), norm(c["ck"], dec, dec))
+                for c in self.consts)
+        return tuple(tuple(x for x in triple if x is not None) for triple in seen)
 
 
 def run_form(world, defn, form, st):
@@ -195,11 +281,14 @@ def run_form(world, defn, form, st):
             out["pack"] = bytes(ser.pack_serializable(inst))
         except Exception as e:  # noqa: BLE001
             out["pack"] = ("raised", type(e).__name__, "%s: %s" % (type(e).__name__, str(e)[:160]))
+    dec = None
     try:
         dec, end = ser.unpack_serializable(cls, bytes(st["pbytes"]))
         out["unpack"] = (canon(defn.attributes(dec)), end, type(dec) is cls)
     except Exception as e:  # noqa: BLE001
         out["unpack"] = ("raised", type(e).__name__, "%s: %s" % (type(e).__name__, str(e)[:160]))
+    if defn.consts:
+        out["members"] = defn.members(cls, inst, dec)
     if inst is not None and not raised(out.get("pack")):
         try:                                  # the class has been used now: a second instance must behave the same
             again = construct()
@@ -231,7 +320,8 @@ def check_state(world, defn, st):
     share is a codec matter (property C02) and only noted."""
     want = {"construct": canon(defn.flat_norm(st["fields"])), "pack": bytes(st["pbytes"]),
             "unpack": (canon(defn.flat_norm(st["fields"])), len(st["pbytes"]), True),
-            "again": (canon(defn.flat_norm(st["fields"])), bytes(st["pbytes"]))}
+            "again": (canon(defn.flat_norm(st["fields"])), bytes(st["pbytes"])),
+            "members": tuple((canon(v),) * 3 for v in st.get("cvals", ()))}
     res = {form: run_form(world, defn, form, st) for form in ("plain", "compiled", "dataclass")
            if form in defn.forms or form in defn.errors}
     n_cmp, probs, codec_notes = 0, [], []
@@ -239,7 +329,7 @@ def check_state(world, defn, st):
     for form, out in res.items():
         if form == "plain":
             continue
-        for stage in ("class", "construct", "pack", "unpack", "again"):
+        for stage in ("class", "construct", "pack", "unpack", "again", "members"):
             if stage not in out and stage not in ref:
                 continue
             n_cmp += 1
@@ -250,9 +340,16 @@ def check_state(world, defn, st):
                 probs.append((form, stage, key, "%s form: %s %s, plain form %s" % (
                     form, stage, describe(b) if b is not None else "not reached", describe(a) if a is not None else "not reached")))
                 break
-    for stage in ("class", "construct", "pack", "unpack", "again"):
-        if stage == "again" and stage not in ref:
+    for stage in ("class", "construct", "pack", "unpack", "again", "members"):
+        if stage in ("again", "members") and stage not in ref:
             continue
+        if stage == "members":                # (as many observations per member as there were instances to look at)
+            want[stage] = tuple(w[:len(g)] for w, g in zip(want[stage], ref[stage])) + want[stage][len(ref[stage]):]
+        if stage == "members" and ref[stage] != want[stage]:
+            n_cmp += 1
+            probs.append(("plain", stage, "differs", "plain form: members %s show %s, definition means %s" % (
+                [MEMBERS[c["ck"]][0] for c in defn.consts], describe(ref[stage]), describe(want[stage]))))
+            break
         if stage == "class":
             if "class" in ref:
                 probs.append(("plain", "class", ref["class"][1], "plain definition cannot be created: " + ref["class"][2]))
@@ -283,7 +380,7 @@ def called_states(dot_path):
             continue
         seen.add(m.group(1))
         st = parse_state(_unescape(lbl))
-        yield {k: st[k] for k in ("def", "split", "style", "args", "fields", "pbytes", "pdec")}
+        yield {k: st[k] for k in STATE_KEYS}
 
 
 def tlc_exhaustive(cfg):
@@ -313,7 +410,7 @@ def tlc_simulate(cfg, num, seed):
             steps = parse_simulate_file(path)
             if steps and steps[-1][2].get("dphase") == "called":
                 st = steps[-1][2]
-                out.append({k: st[k] for k in ("def", "split", "style", "args", "fields", "pbytes", "pdec")})
+                out.append({k: st[k] for k in STATE_KEYS})
         return r, out
     finally:
         shutil.rmtree(tmp, ignore_errors=True)
@@ -323,15 +420,25 @@ def def_key(df):
     return tuple((f["k"], f["d"], f["h"]) for f in df)
 
 
+def const_key(consts):
+    return tuple((c["ck"], c["sty"], c["pos"], bool(c["sub"])) for c in consts)
+
+
+def base_consts(st):
+    return tuple(c for c in st.get("consts", ()) if not c["sub"])
+
+
 def base_state(world, base_def, st, spec_index):
     """a state for the base class of a derived definition: the one TLC computed for that definition when it was
     enumerated on its own, else (long simulated ones) the leading arguments with the bytes the plain form packs."""
     key = def_key(base_def.df)
+    members = {"consts": base_consts(st), "cvals": st.get("bcvals", ()), "bcvals": st.get("bcvals", ())}
     for style in (st["style"], "positional"):
-        if (key, style) in spec_index:
-            return spec_index[(key, style)]
+        if (key, style) in spec_index:       # the base class's own members show the values TLC computed for it (bcvals)
+            return dict(spec_index[(key, style)], **members)
     n = len(base_def.df)
     bst = {"def": st["def"][:n], "split": 0, "style": "positional", "args": st["args"][:n], "fields": st["args"][:n], "pbytes": ()}
+    bst.update(members)
     packed = run_form(world, base_def, "plain", bst).get("pack")
     if packed is None or raised(packed):
         return None
@@ -343,15 +450,16 @@ def materialise(world, st, order, spec_index):
     """classes of one definition; for a derived one in the given order of first use.
     -> (Definition to check, [problems found while the base class was used first])"""
     split = st.get("split", 0)
+    consts = st.get("consts", ())
     if not split:
-        return Definition(world, st["def"]), None, []
-    base_def = Definition(world, st["def"][:split])
+        return Definition(world, st["def"], consts=consts), None, []
+    base_def = Definition(world, st["def"][:split], consts=base_consts(st))
     early = []
     if order == "base-first":                 # the base class is instantiated, packed and unpacked before the subclass exists
         bst = base_state(world, base_def, st, spec_index)
         if bst is not None:
             early = check_state(world, base_def, bst)[1]
-    return Definition(world, st["def"], base=base_def), base_def, early
+    return Definition(world, st["def"], base=base_def, consts=consts), base_def, early
 
 
 def run_states(ctx, world, states, tag, cache, codec_notes, spec_index=None):
@@ -360,7 +468,7 @@ def run_states(ctx, world, states, tag, cache, codec_notes, spec_index=None):
     for st in states:
         split = st.get("split", 0)
         for order in (("base-first", "derived-first") if split else ("",)):
-            key = (def_key(st["def"]), split, order)
+            key = (def_key(st["def"]), split, order, const_key(st.get("consts", ())))
             fresh = key not in cache
             if fresh:
                 cache[key] = materialise(world, st, order, spec_index)
@@ -384,10 +492,16 @@ def run_states(ctx, world, states, tag, cache, codec_notes, spec_index=None):
             for form, aspect, k, detail, who in probs:
                 kinds = "+".join(sorted({f["k"] for f in st["def"] if f["d"]}))
                 shape = [(f["k"], "default" if f["d"] else "", "rules" if f["h"] else "") for f in st["def"]]
-                ctx.violation("def:%s:%s:%s%s%s" % (form, aspect, k, (":derived-" + order) if split else "", who),
+                consts = st.get("consts", ())
+                members = "" if not consts else " with non-field members %s" % [
+                    "%s (%s, %s, after %d fields)" % (MEMBERS[c["ck"]][0], {"bare": "plain assignment", "classvar": "ClassVar annotation",
+                                                      "subscript": "class header"}[c["sty"]], "subclass" if c["sub"] else "class", c["pos"])
+                    for c in consts]
+                ctx.violation("def:%s:%s:%s%s%s%s" % (form, aspect, k, (":derived-" + order) if split else "", who,
+                                                      ":members-" + "+".join(sorted({c["sty"] for c in consts})) if consts else ""),
                               "definition %s%s, %s call: %s%s" % (
                                   shape if not split else "%s extended by subclass fields %s (%s)" % (shape[:split], shape[split:], order),
-                                  "", st["style"], detail, (" [kinds with defaults: %s]" % kinds) if kinds else ""),
+                                  members, st["style"], detail, (" [kinds with defaults: %s]" % kinds) if kinds else ""),
                               {"state": plain(st)})
     return n_cmp_total
 
@@ -446,6 +560,30 @@ def sabotage_control(ctx, world, states):
                 any(p[0] == "plain" and p[1] == "construct" for p in p_wrong))
 
 
+def member_controls(ctx, world, states):
+    """forms that mistreat the non-field members of a class body must be flagged."""
+    st = next(s for s in states if not s["split"] and len(s["consts"]) == 1 and s["consts"][0]["ck"] == "int"
+              and s["consts"][0]["sty"] == "classvar" and s["consts"][0]["pos"] == len(s["def"])
+              and not any(f["k"] == "bits" for f in s["def"]))
+    mixed = Definition(world, st["def"], consts=st["consts"])
+    mixed.forms["dataclass"] = Definition(world, st["def"], consts=st["consts"], sabotage="const-field").forms["dataclass"]
+    _, p_field, _ = check_state(world, mixed, st)
+    ctx.control("a dataclass form that puts a ClassVar-annotated constant on the wire is flagged",
+                any(p[0] == "dataclass" and p[1] in ("construct", "pack", "unpack") for p in p_field))
+    lost = Definition(world, st["def"], consts=st["consts"])
+    setattr(lost.forms["compiled"], MEMBERS["int"][0], 0)
+    _, p_lost, _ = check_state(world, lost, st)
+    ctx.control("a compiled form whose class constant lost its value is flagged",
+                any(p[0] == "compiled" and p[1] == "members" for p in p_lost))
+    sto = next(s for s in states if s["split"] and len(s["consts"]) == 2 and not any(f["k"] == "bits" for f in s["def"]))
+    good, base_def, _ = materialise(world, sto, "base-first", {})
+    name = MEMBERS[sto["consts"][0]["ck"]][0]
+    good.forms = {"plain": type("NoOverride", (good.forms["plain"],), {name: getattr(base_def.forms["plain"], name)})}
+    _, p_over, _ = check_state(world, good, sto)
+    ctx.control("a plain subclass that shows the base class's value of an overridden member is flagged against cvals",
+                any(p[0] == "plain" and p[1] == "members" for p in p_over))
+
+
 def run(tier, seed, replay=None):
     setup_repo_path()
     ctx = Ctx(PID, tier, seed, "translation_validation")
@@ -457,11 +595,17 @@ def run(tier, seed, replay=None):
                        "convention) pairs; disagreements_checked = individual form-vs-definition comparisons.  Derived "
                        "definitions (a subclass adding 1-2 fields to a base definition; meaning = concatenated field list) are "
                        "materialised twice, with the base class used before the subclass exists and with the subclass used "
-                       "first; every class is instantiated at least twice")
+                       "first; every class is instantiated at least twice.  Class bodies also hold non-field members "
+                       "(constants bare / ClassVar-annotated, helper method, message id bare / ClassVar / in the class header) "
+                       "before, between and after the fields, in the base class and overriding in the subclass: exhaustive for "
+                       "one member (and base+override pairs) over definitions of <= 2 fields, up to 3 members in the simulated "
+                       "long definitions; each member's value on class / constructed / decoded instance is compared with cvals")
     ctx.assumptions += ["field names are generated identifiers (f1, f2_0 ...); names that collide with Python keywords or with "
                         "the attributes of the payload classes are outside the explored space",
                         "default values are immutable literals / instances of the field's type; dataclass default_factory "
                         "is outside the explored space",
+                        "non-field members are class constants, helper methods and the message id; dataclasses.InitVar "
+                        "pseudo-fields, init=False / kw_only fields have no plain counterpart and are outside the explored space",
                         "the reference codec Wire.tla (checked by C02) supplies the bytes of each field"]
     world = World(seed)
     rng = random.Random(seed)
@@ -476,6 +620,8 @@ def run(tier, seed, replay=None):
             st = canon(rp["state"])
             st["def"] = tuple(st["def"])
             st.setdefault("split", 0)
+            for k_ in ("consts", "cvals", "bcvals"):
+                st[k_] = tuple(st.get(k_, ()))
             n = run_states(ctx, world, [st], "replay", cache, {})
             ctx.sample({"replayed_definition": plain(st["def"])})
         else:                                   # recordings of the forms of a shipped class
@@ -502,14 +648,15 @@ def run(tier, seed, replay=None):
 
     pool = concurrent.futures.ThreadPoolExecutor(max_workers=8)
     try:
-        f_ctl = pool.submit(run_tlc, "PayloadDef.tla", "PayloadDef_ctl_default.cfg", coverage=False, workers=1, java_opts=JAVA_OPTS)
+        f_ex = pool.submit(tlc_exhaustive, "PayloadDef_n2.cfg" if tier == "quick" else "PayloadDef_n3.cfg")     # the longest job first
+        # one -continue run with both pinned deviations switched on: each must be reported against its own invariant
+        f_ctl = pool.submit(run_tlc, "PayloadDef.tla", "PayloadDef_ctl_default.cfg", coverage=False, workers=1, java_opts=JAVA_OPTS,
+                            continue_=True)
         if tier == "quick":
-            f_ex = pool.submit(tlc_exhaustive, "PayloadDef_n2.cfg")
             f_sim = [pool.submit(tlc_simulate, "PayloadDef_sim.cfg", 40, seed + 1),
                      pool.submit(tlc_simulate, "PayloadDef_simraw.cfg", 30, seed + 2)]
             per_class = 4
         else:
-            f_ex = pool.submit(tlc_exhaustive, "PayloadDef_n3.cfg")
             f_sim = [pool.submit(tlc_simulate, "PayloadDef_sim.cfg", 1500, seed + 1),
                      pool.submit(tlc_simulate, "PayloadDef_simraw.cfg", 1000, seed + 2)]
             per_class = 60
@@ -518,17 +665,29 @@ def run(tier, seed, replay=None):
         base = next(t for t in traces if t["fmt"].startswith("dht.payload.Store") and len(t["events"]) == 3)
         f_tc = pool.submit(run_trace_controls, base)
 
-        r_ctl = f_ctl.result()
-        ctx.control("specification in which a text default is lost (pinned _compile_init) violates DefaultsUsed",
-                    r_ctl.violated == "DefaultsUsed")
         r, states = f_ex.result()
-        n_der = len({(def_key(s_["def"]), s_["split"]) for s_ in states if s_["split"]})
-        r.coverage = {"AddField": (r.distinct - len(states) - n_der, r.distinct - len(states) - n_der), "Derive": (n_der, n_der),
-                      "Call": (len(states), len(states))}
+        n_der = len({(def_key(s_["def"]), s_["split"], const_key(s_["consts"])) for s_ in states if s_["split"]})
+        cstates = [s_ for s_ in states if s_["consts"]]         # definitions whose class bodies hold non-field members
+        n_add = len({(def_key(s_["def"]), s_["split"], const_key(s_["consts"])) for s_ in cstates})
+        n_fld = r.distinct - len(states) - n_der - n_add
+        r.coverage = {"AddField": (n_fld, n_fld), "Derive": (n_der, n_der), "AddConst": (n_add, n_add), "Call": (len(states), len(states))}
         ctx.add_tlc("exhaustive", r)
-        spec_index = {(def_key(s_["def"]), s_["style"]): s_ for s_ in states if not s_["split"]}
+        spec_index = {(def_key(s_["def"]), s_["style"]): s_ for s_ in states if not s_["split"] and not s_["consts"]}
         n_cmp = run_states(ctx, world, states, "exhaustive", cache, codec_notes, spec_index)
         n_defs_ex = len(cache)
+        n_defs_members = sum(1 for k_ in cache if k_[3])
+        if len(cstates) < 500 or not any(len(s_["consts"]) == 2 for s_ in cstates):
+            raise MachineryError("TLC enumerated only %d definitions with non-field members" % len(cstates))
+        for s_ in cstates[len(cstates) // 2:][:1]:
+            ctx.sample({"definition": [(f_["k"], f_["d"], f_["h"]) for f_ in s_["def"]], "base_class_fields": s_["split"],
+                        "members": [(MEMBERS[c["ck"]][0], c["sty"], c["pos"], c["sub"]) for c in s_["consts"]],
+                        "member_values_by_TLC": plain(s_["cvals"]), "call": s_["style"], "bytes_by_TLC": bytes(s_["pbytes"]).hex()})
+        r_ctl = f_ctl.result()
+        reported = set(re.findall(r"Invariant (\S+) is violated", r_ctl.output))
+        ctx.control("specification in which a text default is lost (pinned _compile_init) violates DefaultsUsed",
+                    "DefaultsUsed" in reported)
+        ctx.control("specification in which a ClassVar-annotated class constant is taken for one more field violates ConstsOffWire",
+                    "ConstsOffWire" in reported)
         longest = 0
         for i, f in enumerate(f_sim):
             rs, sim_states = f.result()
@@ -581,6 +740,7 @@ def run(tier, seed, replay=None):
     for name, fired in tc:
         ctx.control(name, fired)
     sabotage_control(ctx, world, states)
+    member_controls(ctx, world, cstates)
     ctx.cov.update({"programs": len(cache) + len(keys), "disagreements_checked": n_cmp, "exhaustive": False})
     ctx.note("exhaustive_part", "all definitions with at most %d fields over the 13 kinds (defaults as a suffix, at most one "
              "field with custom rules) x calling conventions were enumerated completely; longer ones are drawn by TLC's "
@@ -589,8 +749,9 @@ def run(tier, seed, replay=None):
         ctx.note("codec_level_disagreements_left_to_C02", list(codec_notes.values())[:12])
         print("NOTE C20: %d kind(s) of field whose bytes differ from the reference codec in every form alike "
               "(a codec matter, decided by C02; not a translation disagreement)" % len(codec_notes))
-    ctx.note("definitions", {"exhaustive": n_defs_ex, "simulated": len(cache) - n_defs_ex, "longest_simulated": longest,
+    ctx.note("definitions", {"exhaustive": n_defs_ex, "exhaustive_with_members": n_defs_members, "simulated": len(cache) - n_defs_ex, "longest_simulated": longest,
                              "derived_x_order": sum(1 for k_ in cache if k_[1]),
+                             "with_non_field_members": sum(1 for k_ in cache if k_[3]),
                              "with_dataclass_form": sum(1 for d, _, _ in cache.values() if "dataclass" in d.forms or "dataclass" in d.errors),
                              "shipped_variable_payloads": len(keys), "shipped_instances_x_forms": len(traces)})
     return ctx.finish()
